@@ -28,6 +28,7 @@ let table : (string * (z list -> z list)) list = [
   ("mask_ops", (fun _ -> [Model.Zneg (Model.XI (Model.XO (Model.XO Model.XH)))]));
   ("cs_px", (fun _ -> [Model.Zneg (Model.XI (Model.XO (Model.XO Model.XH)))]));
   ("thin_cov", (fun _ -> [Model.Zneg (Model.XI (Model.XO (Model.XO Model.XH)))]));
+  ("cs_span", (fun _ -> [Model.Zneg (Model.XI (Model.XO (Model.XO Model.XH)))]));
   ("nearest_map", run_nearest_map);
   ("tiles", run_tiles);
   ("pat_px", (fun _ -> [Model.Zneg (Model.XI (Model.XO (Model.XO Model.XH)))]));
